@@ -404,10 +404,20 @@ func (i *Informers) Deliver(kind, ns, name string) error {
 	return err
 }
 
+// DeliverLoud is Deliver without touching the Quiet counter (free-running threads).
+func (i *Informers) DeliverLoud(kind, ns, name string) error {
+	_, err := i.deliver(kind, ns, name)
+	return err
+}
+
 // DeliverR also reports whether the reconcile asked for an immediate requeue (the key has not been fully observed yet).
 func (i *Informers) DeliverR(kind, ns, name string) (bool, error) {
 	i.w.Client.Quiet++
 	defer func() { i.w.Client.Quiet-- }()
+	return i.deliver(kind, ns, name)
+}
+
+func (i *Informers) deliver(kind, ns, name string) (bool, error) {
 	r := reconcile.Request{NamespacedName: types.NamespacedName{Namespace: ns, Name: name}}
 	var err error
 	var res reconcile.Result
